@@ -130,6 +130,10 @@ pub struct CustomDeco {
     pub ul: String,
     pub ol_suffix: String,
     pub sup: (String, String),
+    /// per-number labels for ordered lists, used cyclically (roman numerals,
+    /// letters, words ...); empty means decimal numbers
+    #[serde(default)]
+    pub ol_labels: Vec<String>,
 }
 
 #[derive(Serialize, Deserialize, Clone, Debug, PartialEq, Eq)]
